@@ -7,7 +7,8 @@ RULE = ("exhaustive: every byte string up to length L over {00,01,03,04} x every
         "{drain, read(1).., fill/consume(1).., mixed} x skip in {0,1,2}; the same with the hook's fill window 1..4 for "
         "short strings; window cases: chunks of 120..300 and 4000 bytes with escapes and forbidden sequences placed around "
         "offsets 125..131 and 253..259; random payloads escaped per 7.4.1, chunked, streamed and one-shot decoded. "
-        "observable: delivered bytes, terminal condition, Cow variant. non-trivial = input contains 00 00")
+        "every header byte 0..255 through Nal::rbsp_bytes; NALs of 2^k-2..2^k+2 bytes (k to 17 quick / 24 thorough) one-shot and streamed, "
+        "implementation only against the reference unescape. observable: delivered bytes, terminal condition, Cow variant. non-trivial = input contains 00 00")
 CORRESPONDENCE = "Model/Rbsp.v ByteReader/decode_nal vs rbsp::ByteReader/decode_nal"
 ASSUMPTIONS = ["BufRead::consume(amt <= bytes returned by fill_buf)", "hook h264_reader_verif: ByteReader::verif_with_max_fill (add-only)"]
 
@@ -69,6 +70,33 @@ def gen(tier, rng):
             i += k
         cases.append("rbsp %s 1 0 %s" % (nal_src(parts, rng.random() < 0.8), rng.choice(["e", "r1,r2,r3,e", "f,c1,f,e", "r128,r128,e"])))
         cases.append("decode_nal " + hx(nal))
+    # every header byte (the payload starts after exactly one byte whatever the NAL type): through Nal::rbsp_bytes and one-shot
+    for h in range(256):
+        payload = bytes(rng.choice([0, 0, 0, 1, 2, 3, 0x80, 0xff]) for _ in range(rng.choice([3, 6, 9, 40])))
+        nal = bytes([h]) + escape(payload)
+        cut = rng.randrange(1, len(nal))
+        cases.append("rbsp %s 1 0 e" % nal_src([nal[:cut], nal[cut:]], True))
+        cases.append("rbsp %s 1 0 %s" % (nal_src([nal], True), rng.choice(["r1,r2,r3,e", "f,c1,f,e", "f,c3,e"])))
+        cases.append("decode_nal " + hx(nal))
+    # sizes around 2^k (16-bit / 20-bit / 24-bit counters): one-shot decoding borrows exactly when nothing is removed; the
+    # streaming reader delivers the same bytes.  Implementation only (the model's printer is quadratic), judged by the
+    # reference unescape in extra_check
+    for k in ([14, 16, 17] if tier == "quick" else [14, 15, 16, 17, 18, 20, 22, 24]):
+        for d in (-2, -1, 0, 1, 2):
+            n = (1 << k) + d
+            body = bytearray(rng.randrange(1, 256) for _ in range(n))
+            for variant in range(4):
+                b = bytearray(body)
+                if variant == 1:
+                    b[n - 4:n] = b"\x00\x00\x03\x01"           # the only escape at the very end
+                if variant == 2:
+                    b[5:9] = b"\x00\x00\x03\x00"
+                if variant == 3:
+                    b[n - 3:n] = b"\x00\x00\x00"               # forbidden at the very end
+                nal = bytes([0x65]) + bytes(b)
+                cases.append("!decode_nal " + hx(nal))
+                if d == 0 and k <= 20:
+                    cases.append("!rbsp %s 1 0 e" % nal_src([nal[:n // 2], nal[n // 2:]], True))
     return cases
 
 
@@ -78,7 +106,7 @@ def nontrivial(r):
 
 def extra_check(r):
     """oracle for the one-shot decoder and full drains: compare with the reference unescape"""
-    p = r["case"].split()
+    p = r["case"].lstrip("!").split()
     if p[0] == "decode_nal":
         nal = bytes.fromhex(p[1]) if p[1] != "-" else b""
         want, ok = unescape(nal[1:])
@@ -180,4 +208,4 @@ def agree(case, a, m):
 
 def classify(r):
     a = r["dev"]
-    return [r["case"].split()[0], "invalid" if "InvalidData" in a else "wouldblock" if "WouldBlock" in a else "clean"]
+    return [r["case"].lstrip("!").split()[0], "invalid" if "InvalidData" in a else "wouldblock" if "WouldBlock" in a else "clean"]
